@@ -371,60 +371,13 @@ fn check_unlisted_consts(cx: &Cx, sink: &mut Sink) -> (usize, Vec<String>) {
     (judged, unjudged)
 }
 
-const VARIANT_TARGET: &str = "/verif/target/feat-unstable";
-
-/// Build this check against tls-parser with every cargo feature on (std, serialize, unstable) and run it as a
-/// sub-process: the registries must have the same properties in that configuration. Returns its violations
-/// (key, text, replay case) and the number of evaluations.
-fn run_variant(run: &Run, extra: &[String]) -> (Vec<(String, String, serde_json::Value)>, u64, String) {
-    use std::process::Command;
-    let b = Command::new("cargo")
-        .args(["build", "--release", "--offline", "-p", "vchecks", "--bin", "c17", "--features", "tp-unstable", "--target-dir", VARIANT_TARGET])
-        .current_dir("/verif/harness")
-        .env("CARGO_NET_OFFLINE", "true")
-        .output();
-    match b {
-        Ok(o) if o.status.success() => {}
-        Ok(o) => machinery_failure(run.prop, &format!("the all-features build of the check failed: {}", String::from_utf8_lossy(&o.stderr).lines().rev().take(6).collect::<Vec<_>>().join(" | "))),
-        Err(e) => machinery_failure(run.prop, &format!("cannot run cargo: {}", e)),
-    }
-    let o = Command::new(format!("{}/release/c17", VARIANT_TARGET))
-        .arg("--sub")
-        .args(extra)
-        .current_dir("/verif")
-        .output()
-        .unwrap_or_else(|e| machinery_failure(run.prop, &format!("cannot run the all-features variant: {}", e)));
-    let out = String::from_utf8_lossy(&o.stdout).to_string();
-    let mut viol = Vec::new();
-    let mut evals = None;
-    for l in out.lines() {
-        if let Some(j) = l.strip_prefix("SUBVIOL ") {
-            if let Ok(v) = serde_json::from_str::<serde_json::Value>(j) {
-                viol.push((v["key"].as_str().unwrap_or("").to_string(), v["what"].as_str().unwrap_or("").to_string(), v["case"].clone()));
-            }
-        } else if let Some(n) = l.strip_prefix("SUBEVALS ") {
-            evals = n.trim().parse::<u64>().ok();
-        }
-    }
-    match evals {
-        Some(n) => (viol, n, out),
-        None => machinery_failure(run.prop, &format!("the all-features variant ended without a result (status {:?}): {}", o.status.code(), String::from_utf8_lossy(&o.stderr).lines().rev().take(4).collect::<Vec<_>>().join(" | "))),
-    }
-}
-
 fn main() {
     let run = Run::from_args("C17", "exploration");
     let sub = std::env::args().any(|a| a == "--sub");
     let cx = build_cx();
     if let Some(v) = run.load_replay() {
         let case = &v["case"];
-        if case["features"] == "all" && !sub {
-            // a case found in the all-features configuration is replayed by that build
-            let (viol, _, out) = run_variant(&run, &["--replay".to_string(), run.replay.clone().unwrap()]);
-            let _ = viol;
-            print!("{}", out.lines().filter(|l| !l.starts_with("SUB")).map(|l| format!("{}\n", l)).collect::<String>());
-            std::process::exit(if out.contains("VIOLATION property=") { 1 } else { 0 });
-        }
+
         let mut res = Vec::new();
         for _ in 0..2 {
             let mut msgs = Vec::new();
@@ -457,9 +410,6 @@ fn main() {
         }
         if res[0] != res[1] {
             machinery_failure(run.prop, "replay is not deterministic");
-        }
-        if sub {
-            println!("SUBEVALS 1");
         }
         if res[0].is_empty() {
             println!("replay: property holds on this case");
@@ -521,21 +471,8 @@ fn main() {
         }
     });
     sink.merge(s2);
-    if sub {
-        for v in &sink.viol {
-            println!("SUBVIOL {}", json!({"key": v.key, "what": v.what, "case": v.replay}));
-        }
-        println!("SUBEVALS {}", sink.evals);
-        std::process::exit(0);
-    }
     // the same sweep against the crate built with all cargo features (std, serialize, unstable)
-    let (vv, vevals, _) = run_variant(&run, &[]);
-    sink.evals += vevals;
-    sink.bump("evaluations in the all-features configuration", vevals);
-    for (k, w, mut case) in vv {
-        case["features"] = json!("all");
-        sink.violation(format!("[all features] {}", k), format!("[tls-parser built with --all-features] {}", w), case);
-    }
+    run.all_features_variant(&mut sink);
     let unknown: Vec<String> = cx
         .unknown_src
         .iter()
